@@ -10,6 +10,7 @@ import random
 from .. import campaign as C
 from .. import isa_gen as G
 from .. import sweeps as S
+from ..tlc import MachineryError
 from ..words import limbs, rand32
 from .c11 import EXT_CFG, bit
 from .c18 import _dispatch
@@ -93,6 +94,48 @@ def sys_instr_task(task):
     return [g]
 
 
+COPROC_PATS = [('cdp', '1110ooooNNNNDDDDppppooo0MMMM'), ('mcr', '1110ooo0NNNNttttppppooo1MMMM'),
+               ('mrc', '1110ooo1NNNNttttppppooo1MMMM'), ('mcrr', '11000100uuuuttttppppooooMMMM'),
+               ('mrrc', '11000101uuuuttttppppooooMMMM'), ('stc', '110xxxx0nnnnDDDDppppiiiiiiii'),
+               ('ldc', '110xxxx1nnnnDDDDppppiiiiiiii')]
+
+
+def coproc_task(task):
+    """generic coprocessor instructions (CDP/MCR/MRC/MCRR/MRRC/LDC/STC, A1/A2/T1/T2) x coprocessor number x CPACR.cp<n> x
+    NSACR.cp<n> x security state x mode: UNDEFINED exactly when access control denies, else the not-implemented hooks"""
+    rnd = random.Random(task['seed'])
+    ext = task['ext']
+    g = S.mk_group(dict(task, cfg=EXT_CFG[ext], randmem=task['seed']))
+    for k in range(task['n']):
+        thumb = rnd.random() < 0.45
+        st, pc = S.prep(g, rnd, dict(task, modes='all'), thumb, rnd.choice([0, 0, 0, 2]) if thumb else 0, k)
+        mode = rnd.choice([16, 16, 16] + MODES_BY_EXT[ext])
+        st['cpsr'] = limbs((C.unlimbs(st['cpsr']) & ~31) | mode)
+        ns = 1 if mode == 26 else (rnd.getrandbits(1) if ext[0] else 0)
+        st['sys']['SCR'] = limbs(((rnd.getrandbits(10) & ~1) | ns) if ext[0] else 0)
+        cp = rnd.choice([0, 1, 2, 3, 4, 5, 6, 7, 8, 9, 12, 13] * 4 + [10, 11, 14, 15])
+        # every CPACR.cp<n> field value and NSACR.cp<n> bit for the addressed coprocessor; the other fields random
+        cpacr = rnd.getrandbits(28) & ~(3 << (2 * cp)) if cp < 14 else rnd.getrandbits(28)
+        if cp < 14:
+            cpacr |= rnd.choice([0, 1, 3, 3, 2]) << (2 * cp)
+        st['sys']['CPACR'] = limbs(cpacr)
+        st['sys']['NSACR'] = limbs(rnd.getrandbits(14) | (rnd.getrandbits(3) << 16))
+        st['sys']['HCPTR'] = limbs(rnd.getrandbits(14) if rnd.random() < 0.3 else 0)
+        for r in st['R']:
+            if r != 'PC' and rnd.random() < 0.6:
+                st['R'][r] = limbs(rnd.randrange(8, 56) * 4)
+        name, pat = rnd.choice(COPROC_PATS)
+        body = G.fill(pat, rnd, fixed={'p': cp})
+        if not thumb:
+            cond = rnd.choice([14, 14, 15, 15, rnd.randrange(14)])
+            w = (cond << 28) | body
+        else:
+            w = ((0b1110 | rnd.getrandbits(1)) << 28) | body
+        C.put_instr(st, pc, w, thumb)
+        g.add(st, {'n': 'Step'}, meta={'gen': 'coproc-' + name, 'word': w, 'thumb': thumb, 'mode': mode, 'cp': cp, 'ns': ns})
+    return [g]
+
+
 RET_ARM = {'SVC': 0xE1B0F00E, 'Undef': 0xE1B0F00E, 'IRQ': 0xE25EF004, 'FIQ': 0xE25EF004, 'DAbort': 0xE25EF008}
 RET_THUMB = {'SVC': 0xF3DE8F00, 'Undef': 0xF3DE8F00, 'IRQ': 0xF3DE8F04, 'FIQ': 0xF3DE8F04, 'DAbort': 0xF3DE8F08}
 
@@ -130,6 +173,8 @@ def roundtrip_task(task):
 def clause_filter(c, v, e):
     if c == 'hosterror':
         return True
+    if v['path'].startswith('envelope:notimpl:') and c == 'outcome':
+        return True                                   # accepted coprocessor instruction must reach the coprocessor hooks
     return v['path'].startswith(('psrapi', 'exact', 'exc')) and c not in ('range', 'confine', 'nop-on-condfail')
 
 
@@ -144,6 +189,7 @@ def run(ctx):
         for j in range(2 if q else 4):
             tasks.append((sys_instr_task, dict(name='sysinstr-%d-%d' % (i, j), seed=ctx.seed + 20 + 4 * i + j, ext=ext,
                                                n=1200 if q else 15000)))
+        tasks.append((coproc_task, dict(name='coproc-%d' % i, seed=ctx.seed + 90 + i, ext=ext, n=1500 if q else 20000)))
     for i in range(3):
         tasks.append((roundtrip_task, dict(name='roundtrip-%d' % i, seed=ctx.seed + 60 + i, n=300 if q else 6000,
                                            cfg={'arch_version': 7})))
@@ -156,11 +202,18 @@ def run(ctx):
     res = C.judge_groups(ctx, groups, clause_filter, rnd=rnd, tags_of=tags,
                          site_of=lambda e, v: e['act']['n'] if e['act']['n'] not in ('Step',) else (e.get('cls') or v['path']))
     ctx.extra['psr_api_events'] = sum(len(g.events) for g in groups if g.name.startswith('psrapi'))
-    ctx.extra['not_covered'] = 'coprocessor access-control gating (CDP/MCR/MRC/LDC/STC families) is not specified yet: envelope only'
+    cop = [(g, e, v) for g, e, v in res if g.name.startswith('coproc')]
+    ctx.extra['coproc_events'] = {'denied_undef_exact': sum(1 for g, e, v in cop if v['path'].startswith('exact:exc:')),
+                                  'accepted_notimpl': sum(1 for g, e, v in cop if v['path'].startswith('envelope:notimpl')),
+                                  'other': sum(1 for g, e, v in cop if not v['path'].startswith(('exact:exc:', 'envelope:notimpl')))}
+    if min(ctx.extra['coproc_events']['denied_undef_exact'], ctx.extra['coproc_events']['accepted_notimpl']) < 50:
+        raise MachineryError('coprocessor gating: one of the two sides is hardly exercised: %s' % ctx.extra['coproc_events'])
+    ctx.extra['not_covered'] = ('coprocessor gating is specified for generic coprocessors (CP0-9, 12, 13); CP10/11 (VFP / Advanced '
+                                'SIMD), CP14/CP15 system accesses and HCPTR traps are envelope-only')
     ctx.extra['rule'] = ('cpsr/spsr_write_by_instr over every mode x 16 masks x return flag x secure/non-secure x NMFI x AW/FW x RFR '
                          'x 3 extension configurations with values differing from the old PSR in every field; random system '
                          'instruction words in every mode; entry+return programs for SVC/Undef/IRQ/FIQ/DAbort from ARM, Thumb and '
-                         'mid-IT states with ARM and Thumb handlers')
+                         'mid-IT states with ARM and Thumb handlers; generic coprocessor instructions x CPACR / NSACR / security state / mode')
     for g, e, v in res[:2] + res[-1:]:
         ctx.sample({'group': g.name, 'meta': g.meta.get(e['id']), 'act': e['act'], 'out': e['out'], 'delta': e['d'],
                     'verdict': {k: v[k] for k in ('v', 'path')}})
